@@ -5,7 +5,7 @@ from ..net import simulate, incidence, expected_demand, connected_to_source
 ID = "C01"
 LEVEL = "exploration"
 TOL = 1e-6   # Newton residual criterion (m3/s)
-RULE = ("netspace: 8 skeletons x every subset of <= d compatible deviations (quick: d<=1 + named pairs; thorough: d<=2) "
+RULE = ("netspace: 9 skeletons (incl. sources joined directly) x every subset of <= d compatible deviations (quick: d<=1 + named pairs; thorough: d<=2) "
         "from the catalogue {orientation, closed, CV, pumps, valves, loss parameters, demands/patterns/categories, leaks, "
         "tanks, PDD, multiplier, pattern_start, step variants}; each run on WNTRSimulator; oracle: node balance at every "
         "reported step, tank/reservoir demand = net inflow, DD demand = mult*sum(base*pattern(t+pattern_start)). "
